@@ -23,7 +23,7 @@ func init() {
 	register(&Rule{ID: "E-SELECTOR-NULL", Props: []string{"C01"}, Floor: 3,
 		Doc: "selectors and projection helpers return null (and no error) when their subject has the wrong type: the failure edge of the container assertion returns the nil constant",
 		Run: ruleESelectorNull})
-	register(&Rule{ID: "E-EQUALITY", Props: []string{"C20"}, Floor: 1,
+	register(&Rule{ID: "E-EQUALITY", Props: []string{"C20", "C09"}, Floor: 1,
 		Doc: "!= is the negation of the same equality helper as ==; contains tests membership with that helper; in equal the array and object loops are dominated by a length-equality test, the object loop tests key presence with a comma-ok lookup before comparing values, and different JSON types never compare equal by falling through",
 		Run: ruleEEquality})
 	register(&Rule{ID: "E-TRUTHY", Props: []string{"C20", "C14"}, Floor: 6,
@@ -32,7 +32,7 @@ func init() {
 	register(&Rule{ID: "E-RESULT-TYPES", Props: []string{"C18"}, Floor: 46,
 		Doc: "every value the evaluator converts to `any` has one of the JSON carrier types: bool, string, []any, map[string]any or one of the 14 numeric kinds; strings are never re-typed as json.Number",
 		Run: ruleEResultTypes})
-	register(&Rule{ID: "P-CASE-SIBLINGS", Props: []string{"C12", "C17", "C01"}, Floor: 1,
+	register(&Rule{ID: "P-CASE-SIBLINGS", Props: []string{"C12", "C17", "C01"}, Floor: 0,
 		Doc: "AST nodes of one type that are built under the same token in different parser functions (infix form and prefix form of one construct) set the same fields",
 		Run: rulePCaseSiblings})
 }
@@ -883,12 +883,53 @@ func ruleEEquality(p *Program, r *Reporter) {
 	}
 	// contains: membership loop calls equal(element, needle)
 	usesEqual := false
-	for _, b := range contains.Blocks {
-		for _, in := range b.Instrs {
-			if c, ok := in.(*ssa.Call); ok && calleeOf(&c.Call) == equal {
-				usesEqual = true
-				if c.Call.Args[1] != ssa.Value(contains.Params[1]) {
-					usesEqual = false
+	// the needle: the second parameter, directly or captured by a predicate handed to a library search (slices.ContainsFunc)
+	isNeedle := func(v ssa.Value) bool {
+		if v == ssa.Value(contains.Params[1]) {
+			return true
+		}
+		if ld, ok := v.(*ssa.UnOp); ok && ld.Op == token.MUL {
+			v = ld.X // a variable captured by reference: the closure loads it
+		}
+		paramCell := func(b ssa.Value) bool {
+			if b == ssa.Value(contains.Params[1]) {
+				return true
+			}
+			al, ok := b.(*ssa.Alloc)
+			if !ok {
+				return false
+			}
+			n, good := 0, true
+			for _, ref := range *al.Referrers() {
+				if st, ok := ref.(*ssa.Store); ok && st.Addr == ssa.Value(al) {
+					n++
+					if st.Val != ssa.Value(contains.Params[1]) {
+						good = false
+					}
+				}
+			}
+			return n == 1 && good
+		}
+		if fv, ok := v.(*ssa.FreeVar); ok {
+			for _, b := range contains.Blocks {
+				for _, in := range b.Instrs {
+					if mc, ok := in.(*ssa.MakeClosure); ok && mc.Fn == ssa.Value(fv.Parent()) {
+						for i, bound := range mc.Bindings {
+							if fv.Parent().FreeVars[i] == fv && paramCell(bound) {
+								return true
+							}
+						}
+					}
+				}
+			}
+		}
+		return false
+	}
+	for _, fb := range append([]*ssa.Function{contains}, contains.AnonFuncs...) {
+		for _, b := range fb.Blocks {
+			for _, in := range b.Instrs {
+				if c, ok := in.(*ssa.Call); ok && calleeOf(&c.Call) == equal {
+					usesEqual = isNeedle(c.Call.Args[1])
 				}
 			}
 		}
